@@ -179,6 +179,9 @@ Proof.
   - rewrite H0. reflexivity.
 Qed.
 
+Lemma step_iff (s : st) (x : pick) (s' : st) : step Faithful s x = Some s' <-> Step s x s'.
+Proof. split; [apply step_inv | apply step_complete]. Qed.
+
 (* ------------------------------------------------------------------------------------------------ invariants *)
 (* global part: count is the number of live workers, never above the largest request, and a non-empty queue has a worker *)
 Definition InvG (s : st) : Prop :=
@@ -602,3 +605,90 @@ Proof.
   eexists. eexists. cbn [step]. unfold cstep. rewrite Hc, Hpc, Hs. split; [reflexivity|].
   cbn [callers count mk]. split; [eapply nth_error_upd_same; exact Hc|]. cbn [outs]. rewrite Hz. auto.
 Qed.
+
+(* ------------------------------------------------------------------------------------------------ refutations *)
+(* (a) exit test `count >= target`: Call(1) spawns one worker, which sees count = target = 1 and leaves; the queue is
+       stranded: a terminal state with a queued call, no worker, the caller blocked forever. *)
+Lemma ge_exit_strands : exists progs sched,
+  let s := run GeExit (init progs) sched in
+  terminal GeExit s /\ queue s = [0] /\ count s = 0 /\ countp live (ws s) = 0 /\
+  exists c, nth_error (callers s) 0 = Some c /\ pc c = PBlocked 0.
+Proof.
+  exists [[CCall 1]], [PC 0; PW 0]. cbn zeta. split; [apply terminalb_ok; vm_compute; reflexivity|].
+  vm_compute. repeat split; auto. eexists; split; reflexivity.
+Qed.
+
+(* (b) `count--` missing on exit: after the first Call completes and its worker has gone, count is still 1: a Wait never
+       returns although no worker exists, and the next Call(1) spawns nobody, so its function is never run. *)
+Lemma no_dec_hangs : exists progs sched,
+  let s := run NoDec (init progs) sched in
+  terminal NoDec s /\ countp live (ws s) = 0 /\ count s = 1 /\ queue s = [1] /\
+  (exists c, nth_error (callers s) 0 = Some c /\ pc c = PBlocked 1) /\
+  (exists c, nth_error (callers s) 1 = Some c /\ pc c = PWaiting).
+Proof.
+  exists [[CCall 1; CCall 1]; [CWait]], [PC 0; PW 0; PW 0; PW 0; PW 0; PC 0; PC 1; PC 0]. cbn zeta.
+  split; [apply terminalb_ok; vm_compute; reflexivity|].
+  vm_compute. repeat split; auto; eexists; split; reflexivity.
+Qed.
+
+(* (c) top-up loop `count <= k`: Count() exceeds every count ever requested *)
+Lemma le_spawn_exceeds : exists progs sched,
+  let s := run LeSpawn (init progs) sched in maxreq s = 1 /\ count s = 2 /\ countp live (ws s) = 2.
+Proof. exists [[CCall 1]], [PC 0]. vm_compute. auto. Qed.
+
+(* (d) the dequeue does not shorten the queue: the same function is executed twice (and a second reply is sent) *)
+Lemma no_pop_runs_twice : exists progs sched,
+  let s := run NoPop (init progs) sched in
+  exists c, nth_error (calls s) 0 = Some c /\ cx c = 2.
+Proof. exists [[CCall 1]], [PC 0; PW 0; PW 0; PW 0; PW 0; PW 0]. vm_compute. eexists; split; reflexivity. Qed.
+
+(* -------------------------------------------------------------------------------------------------- examples *)
+(* Three callers ask for 3 workers, their functions start (3 running = count = maxreq); a fourth caller then asks for 1
+   while the queue holds its item: target drops to 1 with count = 3.  When function 0 ends its worker leaves although the
+   queue is NOT empty (count 3 > target 1); so does the next; the last worker serves the queue. *)
+Definition ex_progs : list (list cop) := [[CCall 3]; [CCall 3]; [CCall 3]; [CCall 1; CCount]; [CWait; CCount]].
+Definition ex_sched1 : list pick :=
+  [PC 0; PC 1; PC 2; PW 0; PW 1; PW 2; PW 0; PW 1; PW 2; PC 3; PC 4].
+Definition ex_s1 : st := run Faithful (init ex_progs) ex_sched1.
+
+Example ex_three_running :
+  countp running (ws ex_s1) = 3 /\ count ex_s1 = 3 /\ maxreq ex_s1 = 3 /\ target ex_s1 = 1 /\ queue ex_s1 = [3].
+Proof. vm_compute. auto. Qed.
+
+(* function 0 ends; its worker exits with the queue non-empty *)
+Example ex_exit_with_nonempty_queue :
+  let s := run Faithful ex_s1 [PW 0; PW 0] in
+  nth_error (ws s) 0 = Some WDead /\ queue s = [3] /\ count s = 2 /\ 1 <= countp live (ws s).
+Proof. vm_compute. auto. Qed.
+
+Definition ex_final : st := run_fuel Faithful (measure ex_s1) ex_s1.
+
+Example ex_all_served :
+  terminal Faithful ex_final /\ queue ex_final = [] /\ count ex_final = 0 /\
+  map (fun c => (cs c, cx c, ce c)) (calls ex_final) =
+    [(SReturned 0, 1, 1); (SReturned 1, 1, 1); (SReturned 2, 1, 1); (SReturned 3, 1, 1)] /\
+  map outs (callers ex_final) = [[RCall 0 0]; [RCall 1 1]; [RCall 2 2]; [RCall 3 3; RCount 1]; [RWait; RCount 0]].
+Proof. split; [apply terminalb_ok; vm_compute; reflexivity|]. vm_compute. auto. Qed.
+
+(* the Wait of thread 4 is pending while workers live, and returns at count = 0 *)
+Example ex_wait_blocked_then_returns :
+  step Faithful ex_s1 (PC 4) = None /\
+  exists sched s', let s := run Faithful (init ex_progs) sched in
+    (exists c, nth_error (callers s) 4 = Some c /\ pc c = PWaiting) /\ step Faithful s (PC 4) = Some s' /\ count s = 0.
+Proof.
+  split; [vm_compute; reflexivity|].
+  exists (ex_sched1 ++ [PW 0; PW 0; PW 1; PW 1; PW 2; PW 2; PW 2; PW 2; PW 2]). eexists. cbn zeta.
+  split; [eexists; split; vm_compute; reflexivity|]. split; vm_compute; reflexivity.
+Qed.
+
+Example ex_nocall : nocall Faithful ex_final [PC 0; PW 1; PC 4; PW 0] = true.
+Proof. vm_compute. reflexivity. Qed.
+
+Example ex_measure : measure (init ex_progs) = 34 /\ taken Faithful (init ex_progs) ex_sched1 = 11.
+Proof. vm_compute. auto. Qed.
+
+Example ex_progs_le : progs_le 3 ex_progs.
+Proof. repeat constructor. Qed.
+
+Example ex_burst : burst_result [2; 1; 3; 1] = (4, 4, 0, [RWait; RCount 0]).
+Proof. vm_compute. reflexivity. Qed.
